@@ -517,6 +517,8 @@ class Machine:
             M._gor_switch(g, nxt)
         g.thread = G['threading'].Thread(target=body, daemon=True)
         g.thread.start()
+        if self.env.get('gor_policy') == 'deferred':
+            return                 # second schedule: a spawned goroutine first runs when the others block (or never, when the program ends first)
         self._gor_switch(me, g)
         self._gor_check_fatal(me)
 
